@@ -107,6 +107,15 @@ func PlacementFileG(pkg, goName string, g PlacementGroup) (*spec.File, []*PlaceC
 			}
 		}
 	}
+	if g.PathOpt {
+		// a path variable bound to a proto3 optional field (a pointer in the Go struct, `?:` in TS)
+		for _, k := range []spec.T{spec.String, spec.Int32, spec.Int64, spec.Uint32, spec.Bool, spec.Double} {
+			for _, v := range []string{"GET", "DELETE", "POST", "PUT"} {
+				add("path", k, spec.Optional, v)
+			}
+		}
+		return f, cases
+	}
 	if g.JSONNames {
 		// the URL-bound field carries an explicit json_name that differs from the lowerCamel of its name
 		jsonName = "valueKey"
@@ -161,6 +170,7 @@ type PlacementGroup struct {
 	WithPath   bool
 	NameShapes bool // query fields under every QueryNameShapes spelling instead of the neutral "vx"
 	JSONNames  bool // path and query fields with an explicit json_name
+	PathOpt    bool // path variables bound to proto3 optional fields
 }
 
 // PlacementGroups lists the packages of the placement catalogue.
@@ -180,5 +190,6 @@ func PlacementGroups() []PlacementGroup {
 		{Label: "qbytes", QueryKinds: []spec.T{spec.Bytes}, Cards: []spec.Card{spec.Singular}},
 		{Label: "qopt", QueryKinds: all, Cards: []spec.Card{spec.Optional}},
 		{Label: "qrep", QueryKinds: all, Cards: []spec.Card{spec.Repeated}},
+		{Label: "popt", PathOpt: true},
 	}
 }
